@@ -107,6 +107,16 @@ CLAIMED = {
             "x>=p, wrong-prefix and wrong-length candidates.",
             "k*G and curve membership come from the harness's own secp256k1; hybrid and raw 64-byte encodings are not judged.",
             "DESIGN.md section 5 C09"),
+    "C05": ("TLA+ Address spec (script templates + Base58Check/Bech32 composition, Classify decoder) with abstract "
+            "hashes in TLC, RIPEMD-160 padding/chaining shell spec, + TLC trace validation of address/script/hash calls",
+            "Address.tla composes the five address kinds from hash operators, templates and the Base58/Bech32 specs; "
+            "MC_Address shows with abstract hashes that each kind x network decodes (by the spec's own decoders) to the "
+            "expected class, network and payload. Trace_Keys encodes every requested address itself and also decodes the "
+            "string the library emitted; script builders are compared with the templates; hash160/ripemd160 are compared "
+            "with OpenSSL on every length 0..1024 and the observed compress() calls are checked against Ripemd.tla's "
+            "Merkle-Damgard shell (padding, block split, chaining, output encoding).",
+            "Digest values are oracle tables (OpenSSL); the RIPEMD compression function itself is uninterpreted.",
+            "DESIGN.md section 5 C05"),
 }
 
 ALL = ["C%02d" % i for i in range(1, 21)]
